@@ -1424,6 +1424,12 @@ def filter_map_to_comprehension(tree: ast.Module) -> int:
         if not (isinstance(c, ast.Call) and isinstance(c.func, ast.Name) and c.func.id in ("filter", "map") and len(c.args) == 2 and not c.keywords):
             return None
         lam, it = c.args
+        if c.func.id == "map" and (isinstance(lam, ast.Name) or (isinstance(lam, ast.Attribute) and isinstance(lam.value, ast.Name))):
+            # map(f, IT) with a named routine: (f(x) for x in IT)
+            v = "_mapped_item"
+            call = ast.Call(func=copy.deepcopy(lam), args=[ast.Name(id=v, ctx=ast.Load())], keywords=[])
+            gen = ast.GeneratorExp(elt=call, generators=[ast.comprehension(target=ast.Name(id=v, ctx=ast.Store()), iter=it, ifs=[], is_async=0)])
+            return ast.copy_location(gen, c)
         if not isinstance(lam, ast.Lambda):
             return None
         a = lam.args
@@ -1462,6 +1468,55 @@ def filter_map_to_comprehension(tree: ast.Module) -> int:
             return n
 
     T().visit(tree)
+    if count:
+        ast.fix_missing_locations(tree)
+    return count
+
+
+# ---------------------------------------------------------------------------------
+# L.append(E); x = L[-1]      ->      x = E; L.append(x)
+# ---------------------------------------------------------------------------------
+def append_readback(tree: ast.Module) -> int:
+    count = 0
+
+    def rewrite(block):
+        nonlocal count
+        out = []
+        i = 0
+        while i < len(block):
+            st = block[i]
+            for fld in ("body", "orelse", "finalbody"):
+                sub = getattr(st, fld, None)
+                if isinstance(sub, list) and sub and isinstance(sub[0], ast.stmt):
+                    setattr(st, fld, rewrite(sub))
+            for h in getattr(st, "handlers", []) or []:
+                h.body = rewrite(h.body)
+            nxt = block[i + 1] if i + 1 < len(block) else None
+            if (
+                isinstance(st, ast.Expr) and isinstance(st.value, ast.Call) and isinstance(st.value.func, ast.Attribute) and st.value.func.attr == "append"
+                and isinstance(st.value.func.value, ast.Name) and len(st.value.args) == 1 and not st.value.keywords
+                and isinstance(nxt, ast.Assign) and len(nxt.targets) == 1 and isinstance(nxt.targets[0], ast.Name)
+                and isinstance(nxt.value, ast.Subscript) and isinstance(nxt.value.value, ast.Name) and nxt.value.value.id == st.value.func.value.id
+                and isinstance(nxt.value.slice, ast.UnaryOp) and isinstance(nxt.value.slice.op, ast.USub) and isinstance(nxt.value.slice.operand, ast.Constant) and nxt.value.slice.operand.value == 1
+                and nxt.targets[0].id != st.value.func.value.id
+            ):
+                x = nxt.targets[0].id
+                a = ast.Assign(targets=[ast.Name(id=x, ctx=ast.Store())], value=st.value.args[0], type_comment=None)
+                b = ast.Expr(value=ast.Call(func=st.value.func, args=[ast.Name(id=x, ctx=ast.Load())], keywords=[]))
+                ast.copy_location(a, st)
+                ast.copy_location(b, nxt)
+                ast.fix_missing_locations(a)
+                ast.fix_missing_locations(b)
+                out.extend([a, b])
+                count += 1
+                i += 2
+                continue
+            out.append(st)
+            i += 1
+        return out
+
+    for fn in [n for n in ast.walk(tree) if isinstance(n, (ast.FunctionDef, ast.AsyncFunctionDef))]:
+        fn.body = rewrite(fn.body)
     if count:
         ast.fix_missing_locations(tree)
     return count
